@@ -38,6 +38,7 @@ Definition foreign_exc_remainder : list (string * string) := [
   ("kmip/services/server/session.py", "KmipSession.run");
   ("kmip/services/server/session.py", "KmipSession._handle_message_loop");    (* request decode failures *)
   ("kmip/services/server/session.py", "KmipSession._handle_message_loop");    (* unexpected error in process_request *)
+  ("kmip/services/server/session.py", "KmipSession._handle_message_loop");    (* response could not be encoded *)
   ("kmip/services/server/session.py", "KmipSession.authenticate");
   ("kmip/services/server/session.py", "KmipSession.authenticate");
   ("kmip/services/server/session.py", "KmipSession.authenticate")
